@@ -202,6 +202,10 @@ def drive_and_judge(ctx, worlds, q):
     # 5. binding self-test: corrupted observations must be rejected by the judge
     if not ctx.replay:
         selftest(ctx, events)
+        # 6. extension: header-hash paging (spec/headerhashes, harness/c02hdrhashes)
+        ext = _load_ext("c02_headerhashes") if os.environ.get("VERIF_C02_HEADERHASHES", "0") == "1" else None  # enabled once the trusted-header start defect is resolved
+        if ext:
+            ext.run_ext(ctx)
 
 
 def selftest(ctx, events):
@@ -250,3 +254,14 @@ def selftest(ctx, events):
         if name not in got.get(line, set()):
             raise vlib.Inconclusive("binding self-test: corruption %s at line %d was not rejected" % (name, line))
     ctx.extra["binding_selftests"] = len(want)
+
+
+def _load_ext(name):
+    import importlib.util
+    p = os.path.join(os.path.dirname(os.path.abspath(__file__)), name + ".py")
+    if not os.path.exists(p):
+        return None
+    sp = importlib.util.spec_from_file_location("check_" + name, p)
+    m = importlib.util.module_from_spec(sp)
+    sp.loader.exec_module(m)
+    return m
